@@ -213,7 +213,9 @@ def run_case(case, ctx):
       np.maximum.at(xm, g, np.abs(src).ravel())
       np.maximum.at(ym, g, np.abs(yf).ravel())
       big = xm > 1e-4 * max(case["mag"], 1e-30)      # well above the epsilon floor
-      big &= xm > 1e-5
+      # the scale is floored at K.epsilon() = 1e-7: a channel maximum below epsilon * (number of codes) cannot be
+      # the top code (false alarm of the thorough tier with bits=8 and max |x| = 1.0e-5, appendix C)
+      big &= xm > np.maximum(1e-5, 2e-7 * 2.0 ** kw["bits"])
       ctx.count("auto_top_code_checked")
       rel = np.abs(ym - xm) / np.where(xm > 0, xm, 1.0)
       if (big & (rel > 2e-6)).any():
